@@ -73,3 +73,31 @@ Theorem C13_inbound_never_blocks : forall s e s' o,
   (k_q s' = k_q s \/ exists x, k_q s' = k_q s ++ [x]).
 Proof. exact inbound_never_blocks_and_is_bounded. Qed.
 Print Assumptions C13_inbound_never_blocks.
+
+(* ---------- history level ---------- *)
+From Turn Require Import Common RelayCheck C13Check ClientConnTrace.
+(* The whole predicate that the correspondence check evaluates on every observed trace of the real relayed socket
+   (C13Check: a Send indication or ChannelData leaves only for the peer of the WriteTo that caused it, and only when a
+   CreatePermission for that peer's IP has been answered with success; ChannelData only on a number the server
+   confirmed for that very peer; every ChannelBind carries a number in 0x4000-0x7FFF that is this peer's own and
+   nobody else's; payloads are unmodified; ReadFrom returns the relayed payloads in arrival order, attributed to the
+   source of the Data indication or to the peer of the channel; ChannelData on an unknown number is an error) holds on
+   EVERY trace of Model/ClientConn.v in which at most 16384 peers are written to - the size of the channel number space;
+   with more peers the implementation recycles numbers exactly as the model does - and the runner accepts that trace. *)
+Theorem C13_holds_on_every_model_trace : forall h,
+  (N.of_nat (length (k_binds (fst (crun cinit h)))) <= 16384)%N -> C13Check.run (cmodel_case h) = (true, true).
+Proof. exact c13_run_on_model. Qed.
+Print Assumptions C13_holds_on_every_model_trace.
+
+(* the hypothesis is satisfiable by a history exercising permission retry, binding, confirmation, ChannelData, inbound
+   data on both paths, an unknown channel, reads and Close *)
+Example C13_trace_example :
+  let p := A 7 80 in let q := A 8 81 in
+  let h := [CWrite p [1; 2]%N [PStale; POk]; CBindReact p BOk; CWrite p [3]%N []; CInData q [9]%N; CInChan 16384 [8]%N;
+            CInChan 20000 [7]%N; CRead; CRead; CRead; CWrite q [4]%N [PErr 403]; CClose; CWrite p [5]%N []] in
+  (N.of_nat (length (k_binds (fst (crun cinit h)))) <= 16384)%N /\
+  map (fun o => (co_wire o, co_ret o)) (match cmodel_case h with CC l => l | _ => [] end) =
+  [([WCreatePerm [7%N]; WCreatePerm [7%N]; WChannelBind 16384 p; WSend p [1; 2]%N], RWrote 2);
+   ([], RNone); ([WChanData 16384 [3]%N], RWrote 1); ([], RNone); ([], RNone); ([], RInErr);
+   ([], RRead q [9]%N); ([], RRead p [8]%N); ([], RNone); ([WCreatePerm [8%N]], RErrPerm); ([WRefresh0], RNone); ([], RErrClosed)].
+Proof. cbv zeta. split; [vm_compute; discriminate|vm_compute; reflexivity]. Qed.
